@@ -31,7 +31,7 @@ Patterns == {"regular1", "regular2", "slow3", "halted", "burst"}
 
 Inputs ==
   {[bt |-> bt, w |-> w, tp |-> tp, sfh |-> sfh, pat |-> p, tail |-> t, shead |-> sh, nhead |-> nh] :
-      bt \in 0..3, w \in {0, 2, 5, 9, 12}, tp \in {3, 12}, sfh \in {0, 2, 6}, p \in Patterns,
+      bt \in -1..3, w \in {0, 2, 5, 9, 12}, tp \in {3, 12}, sfh \in {0, 2, 6}, p \in Patterns,
       t \in {0, 1, 3}, sh \in {0, 4, 7}, nh \in {3, 4, 5, 6, 8, MaxH}}
 Valid(i) ==
   /\ (i.tail = 0 <=> i.shead = 0)                   \* empty store or tail..shead
@@ -43,7 +43,7 @@ Res(kind, tail) == [kind |-> kind, tail |-> tail]     \* kind: "ok" | "panic" | 
 
 \* estimateTailHeight
 Estimate(i) ==
-  IF i.bt = 0 THEN Res("ok", 1)                      \* no block time: keep everything from genesis
+  IF i.bt <= 0 THEN Res("ok", 1)                     \* no (or a negative) block time: keep everything from genesis
   ELSE LET n == i.tp \div i.bt IN
        IF n >= i.nhead THEN Res("ok", 1) ELSE Res("ok", i.nhead - n)
 
@@ -59,7 +59,7 @@ Find(i) ==
       diff == expected - TimeOf(i.pat, i.tail)
   IN
   IF diff <= 0 THEN Res("ok", i.tail)
-  ELSE IF i.bt = 0 THEN Res("ok", i.tail)            \* no block time: the tail stays
+  ELSE IF i.bt <= 0 THEN Res("ok", i.tail)           \* no (or a negative) block time: the tail stays
   ELSE IF diff >= i.w
        THEN LET n == i.w \div i.bt IN
             IF n >= i.nhead THEN Res("ok", i.tail)      \* estimate would fall below genesis: nothing to prune
@@ -81,7 +81,7 @@ Predicted(i) ==
   ELSE Res("ok", th.tail)
 
 \* property layer
-Spaced(i) == i.bt # 0 /\ \A h \in 1..(i.nhead - 1) : TimeOf(i.pat, h + 1) - TimeOf(i.pat, h) <= i.bt
+Spaced(i) == i.bt > 0 /\ \A h \in 1..(i.nhead - 1) : TimeOf(i.pat, h + 1) - TimeOf(i.pat, h) <= i.bt
 StartExists(i) == i.sfh = 0 \/ i.sfh <= i.nhead
 Allowed(i, r) ==
   /\ r.kind \notin {"panic", "wrap"}
@@ -93,7 +93,7 @@ Allowed(i, r) ==
 Init == in \in {i \in Inputs : Valid(i)} /\ phase = "in" /\ out = Res("", 0)
 Next == phase = "in" /\ phase' = "out" /\ out' = Predicted(in) /\ UNCHANGED in
 \* the two recorded findings of C16, as classes of rows
-Faster(i) == i.bt # 0 /\ \E h \in 1..(i.nhead - 1) : TimeOf(i.pat, h + 1) - TimeOf(i.pat, h) < i.bt
+Faster(i) == i.bt > 0 /\ \E h \in 1..(i.nhead - 1) : TimeOf(i.pat, h + 1) - TimeOf(i.pat, h) < i.bt
 KFOverprune(i, r) == "KF-C16-overprune" \in Known /\ r.kind = "ok" /\ Faster(i)
 KFTailAboveHead(i, r) == "KF-C16-tail-above-head" \in Known /\ r.kind = "error" /\ i.tail # 0 /\ i.nhead > i.shead + 1
 PredictedAllowed == phase = "out" => Allowed(in, out) \/ KFOverprune(in, out) \/ KFTailAboveHead(in, out)
